@@ -111,8 +111,10 @@ def choi_from_unitary(unitary: np.ndarray) -> np.ndarray:
         np.ndarray : The calculated choi matrix.
 
     """
-    unitary = np.array(unitary)
-    return np.outer(unitary.flatten(), np.conj(unitary.flatten()))
+    # Vectorise as sum_i |i> (x) U|i>, the convention (input (x) output) that
+    # the process tomography routines use for the choi matrix
+    u_vec = np.array(unitary).T.flatten()
+    return np.outer(u_vec, np.conj(u_vec))
 
 
 def _vec(mat: np.ndarray) -> np.ndarray:
